@@ -28,7 +28,7 @@ variable {σ τ ε : Type}
 /-- The generated code selects the maximal match. -/
 theorem C01_maximal_munch (cfg : Config σ τ ε) (hm : MachineOK cfg) (s : Nat) (st : LState σ)
     (hlast : st.last = none) (hdone : st.done = false) (a : Nat) (st' : LState σ)
-    (h : scan cfg (dispatch (stateArms cfg.dfa)) s st.iter st = .act a st') :
+    (h : scan cfg (dispatch (stateArms cfg.dfa cfg.inl)) s st.iter st = .act a st') :
     ∃ k e, Cand cfg s st.iter k a e ∧
       (∀ k' a' e', Cand cfg s st.iter k' a' e' → candLe k' e' k e) ∧
       ∃ n, st' = { advanceBy cfg.width st k with last := none, done := e, state := n } := by
@@ -39,7 +39,7 @@ theorem C01_maximal_munch (cfg : Config σ τ ε) (hm : MachineOK cfg) (s : Nat)
 /-- A lexeme that has a (possibly shorter) match is never reported as an error. -/
 theorem C01_error_only_if_no_match (cfg : Config σ τ ε) (hm : MachineOK cfg) (s : Nat) (st : LState σ)
     (hlast : st.last = none) (loc : Loc) (st' : LState σ)
-    (h : scan cfg (dispatch (stateArms cfg.dfa)) s st.iter st = .err loc st') :
+    (h : scan cfg (dispatch (stateArms cfg.dfa cfg.inl)) s st.iter st = .err loc st') :
     ∀ k a e, ¬ Cand cfg s st.iter k a e := by
   have hns := dispatchOK_of_machineOK cfg hm
   rw [scan_eq_scanPlain cfg _ hm.flags hm.acceptAny hm.targets hns s st.iter st (by simp [hlast])] at h
@@ -49,7 +49,7 @@ theorem C01_error_only_if_no_match (cfg : Config σ τ ε) (hm : MachineOK cfg) 
 always rewinds. -/
 theorem C01_elision_exact (cfg : Config σ τ ε) (hm : MachineOK cfg) (s : Nat) (iter : List Nat) (st : LState σ)
     (hinv : st.last.isSome = true → (cfg.dfa.st s).backtrack = true) :
-    scan cfg (dispatch (stateArms cfg.dfa)) s iter st = scanPlain cfg (dispatch (stateArms cfg.dfa)) s iter st :=
+    scan cfg (dispatch (stateArms cfg.dfa cfg.inl)) s iter st = scanPlain cfg (dispatch (stateArms cfg.dfa cfg.inl)) s iter st :=
   scan_eq_scanPlain cfg _ hm.flags hm.acceptAny hm.targets (dispatchOK_of_machineOK cfg hm) s iter st hinv
 
 /-- The flags computed by the (repaired) analysis are locally closed on every graph — the
@@ -63,7 +63,7 @@ theorem C01_flags_sound (d d' : DFA Nat) (hT : Backtrack.TargetsOK d) (h : updat
 /-- The hypotheses of these theorems are what the decidable checker `machineWF` establishes; it is
 evaluated on the machine the macro actually produced, on every run. -/
 theorem C01_checker_establishes_hypotheses (cfg : Config σ τ ε) (nCtx : Nat)
-    (h : (machineWF cfg.dfa cfg.entries nCtx).all = true) : MachineOK cfg :=
+    (h : (machineWF cfg.dfa cfg.entries nCtx cfg.inl).all = true) : MachineOK cfg :=
   machineOK_of_checker cfg nCtx h
 
 /-- First-rule priority at the language level, for the final machine of the model of `lexer()`: from
@@ -84,12 +84,22 @@ def exampleMachine : DFA Trans :=
     { chars := [(98, Trans.goto 2)], accepting := [{ value := 1, ctx := none }], preds := [0] },
     { chars := [(98, Trans.goto 2)], accepting := [{ value := 0, ctx := none }], preds := [1, 2], backtrack := true } ]
 
-example : (machineWF exampleMachine [] 0).all = true := by decide
+/-- under the macro's current policy state 1 (one predecessor, one arm) is inlined -/
+example : inlinedStates exampleMachine = [1] := by decide
+
+example : (machineWF exampleMachine [] 0 [1]).all = true := by decide
 
 def exampleCfg : Config Unit Unit Unit :=
-  { dfa := exampleMachine, ctxs := [], entries := [], actions := fun _ => Action.skip, width := fun _ => 1, input := none }
+  { dfa := exampleMachine, ctxs := [], entries := [], inl := [1], actions := fun _ => Action.skip,
+    width := fun _ => 1, input := none }
 
 example : MachineOK exampleCfg := machineOK_of_checker exampleCfg 0 (by decide)
+
+/-- the hypotheses do not depend on the inlining policy: the same machine with nothing inlined -/
+example : MachineOK { exampleCfg with inl := [] } := machineOK_of_checker _ 0 (by decide)
+
+/-- …but an initial state may not be inlined -/
+example : (machineWF exampleMachine [] 0 [0]).all = false := by decide
 
 /-! ## End to end, at the language level, for every well-formed definition -/
 
@@ -116,11 +126,11 @@ theorem C01_language_level (items : LexerDef) (c : Compiled) (h : compileLexer i
     (actions : Nat → Action σ τ ε) (width : Nat → Nat) (input : Option (List Nat)) :
     ∃ e rules, IsEntryOf items c name e ∧ coreRules rs b k = some rules ∧
       ∀ (st : LState σ), st.last = none → st.done = false →
-        (∀ a st', scan (c.config actions width input) (dispatch (stateArms c.dfa)) e st.iter st = .act a st' →
+        (∀ a st', scan (c.config actions width input) (dispatch (stateArms c.dfa (inlinedStates c.dfa))) e st.iter st = .act a st' →
           ∃ n viaEoi, LangCand rules ctxAt st.iter n a viaEoi ∧
             (∀ n' a' e', LangCand rules ctxAt st.iter n' a' e' → candLe n' e' n viaEoi) ∧
             ∃ s', st' = { advanceBy width st n with last := none, done := viaEoi, state := s' }) ∧
-        (∀ loc st', scan (c.config actions width input) (dispatch (stateArms c.dfa)) e st.iter st = .err loc st' →
+        (∀ loc st', scan (c.config actions width input) (dispatch (stateArms c.dfa (inlinedStates c.dfa))) e st.iter st = .err loc st' →
           (∀ n a e', ¬ LangCand rules ctxAt st.iter n a e') ∧ loc = st.curStart) :=
   compile_maximal_munch items c h hok ctxAt hnum name rs b k hmem actions width input
 
